@@ -4,6 +4,7 @@
    with one king of that colour, for the ray-walk reference and for every magic table that
    passes the build script's acceptance test.  The verdict / annotation assembly
    (VerdictExact.v) is pinned at the end when present. *)
+From ChessV Require Import Eval InvProofs2 GenExact VerdictExact.
 From Coq Require Import NArith ZArith List.
 From ChessV Require Import MoveGen Abs Rays Magic BoardLemmas AttackProofs.
 From ChessV Require Rules.
@@ -27,6 +28,40 @@ Check @attack_targets_own_squares.
 Check @attack_targets_sound.
 Check @side_to_move_in_check_exact.
 
+
+(* ---- the assembled statements: C06 in full (VerdictExact.v) ---- *)
+Section C06_closed.
+Variable T : ztable.
+Variables rook_t bishop_t : N -> N -> N.
+Hypothesis rook_t_ref : forall x o, x < 64 -> rook_t x o = rook_ref x o.
+Hypothesis bishop_t_ref : forall x o, x < 64 -> bishop_t x o = bishop_ref x o.
+
+Theorem C06_in_check_turn_exact : forall b, Inv rook_t bishop_t b ->
+  in_check rook_t bishop_t b (turn b) = Rules.king_attacked (abstract b) (turn b).
+Proof. exact (in_check_turn_exact rook_t bishop_t rook_t_ref bishop_t_ref). Qed.
+
+(* on the decided domain (no count-based draw fires; current_turn = board.turn as every caller passes) *)
+Theorem C06_game_ending_exact : forall b e b', Inv rook_t bishop_t b ->
+  top (seen_stack b) <> REPETITION_DRAW_COUNT -> top (hm_stack b) < HALFMOVE_DRAW_THRESHOLD ->
+  game_ending T rook_t bishop_t b (turn b) = Ok (e, b') ->
+  b' = b /\ e = (if Rules.is_checkmate (abstract b) (turn b) then Some Checkmate
+                 else if Rules.is_stalemate (abstract b) (turn b) then Some Stalemate else None).
+Proof. exact (game_ending_exact T rook_t bishop_t rook_t_ref bishop_t_ref). Qed.
+
+(* every listed move is annotated check / checkmate / neither according to the position it produces *)
+Theorem C06_effects_exact : forall b l b', Inv rook_t bishop_t b ->
+  gen_annotated T rook_t bishop_t b (turn b) = Ok (l, b') ->
+  forall m e, In (m, e) l -> e = Rules.move_effect (abstract b) (turn b) m.
+Proof. exact (effects_exact T rook_t bishop_t rook_t_ref bishop_t_ref). Qed.
+End C06_closed.
+Check @effects_total.
+Check @game_ending_checkmate_iff.
+Check @game_ending_exact_magic.
+
 Print Assumptions C06_attack_targets_spec_ref.
 Print Assumptions C06_in_check_exact_ref.
 Print Assumptions C06_in_check_exact_magic.
+Print Assumptions C06_in_check_turn_exact.
+Print Assumptions C06_game_ending_exact.
+Print Assumptions C06_effects_exact.
+Print Assumptions effects_total.
